@@ -279,10 +279,10 @@ fn main() {
             "entity ids are not compared (not observable through the store API); the compressed size of a snapshot varies by a few bytes between processes (hash-map field order), so |N| is known to the parent only approximately",
         ],
         parts: vec![
-            PropPart::new("roundtrip", 2_400, 40_000, rt_strategy, roundtrip).shrink_iters(400).boxed(),
-            PropPart::new("embdims", 3_200, 80_000, dim_strategy, embdims).shrink_iters(600).boxed(),
-            PropPart::new("kill", 1_800, 40_000, atomic::kill_strategy, atomic::kill_check).shrink_iters(150).boxed(),
-            PropPart::new("kill_all", 12, 160, atomic::kill_all_strategy, atomic::kill_all_check).shrink_iters(30).boxed(),
+            PropPart::new("roundtrip", 2_400, 26_000, rt_strategy, roundtrip).shrink_iters(400).boxed(),
+            PropPart::new("embdims", 3_200, 56_000, dim_strategy, embdims).shrink_iters(600).boxed(),
+            PropPart::new("kill", 1_800, 28_000, atomic::kill_strategy, atomic::kill_check).shrink_iters(150).boxed(),
+            PropPart::new("kill_all", 12, 110, atomic::kill_all_strategy, atomic::kill_all_check).shrink_iters(30).boxed(),
         ],
         children: vec![("save", Box::new(atomic::child_save))],
     });
